@@ -255,7 +255,9 @@ impl GenCfg {
                 c.many_res = true;
                 c.p_batch = 4;
                 c.p_barrier = 12;
-                c.max_n = 10;
+                c.max_n = 16;
+                c.p_barrier = 4;
+                c.p_unrelated = 0;
                 c.messy_decl = true;
             }
             "kf1" => {
@@ -288,9 +290,11 @@ impl Gen {
         g.ndy = 1 + g.rng.below(if g.nty <= 2 { NDY } else { 2 });
         g.density = 3 + g.rng.below(6);
         if g.cfg.many_res {
+            // 72-108 resources; a first system that names most of them (then a barrier), the
+            // others touch one to three each: mostly independent systems in a builder that has
+            // seen more than 64 distinct resources
             g.nty = NTY as u64;
-            g.ndy = 12 + g.rng.below(6);
-            g.density = 5 + g.rng.below(10);
+            g.ndy = 12 + g.rng.below(7);
         }
         g
     }
@@ -315,6 +319,19 @@ impl Gen {
     }
     fn access(&mut self) -> (Vec<Res>, Vec<Res>) {
         let (mut r, mut w) = (vec![], vec![]);
+        if self.cfg.many_res {
+            for _ in 0..1 + self.rng.below(3) {
+                let x: Res = (self.rng.below(self.nty) as u8, self.rng.below(self.ndy));
+                if self.rng.chance(50) {
+                    if !w.contains(&x) {
+                        w.push(x)
+                    }
+                } else if !r.contains(&x) {
+                    r.push(x)
+                }
+            }
+            return (r, w);
+        }
         if self.rng.chance(self.cfg.p_unrelated) {
             return (r, w);
         }
@@ -356,6 +373,19 @@ impl Gen {
     }
     pub fn ops(&mut self, n: usize, depth: usize, names: &mut Vec<String>) -> Vec<Op> {
         let mut v = vec![];
+        if self.cfg.many_res && depth == 0 {
+            // the first system declares 66 or more distinct resources, in a random order
+            let mut all: Vec<Res> = (0..self.nty).flat_map(|t| (0..self.ndy).map(move |d| (t as u8, d))).collect();
+            self.rng.shuffle(&mut all);
+            let take = 66 + self.rng.below((all.len() - 66) as u64 + 1) as usize;
+            all.truncate(take);
+            let cut = self.rng.below(all.len() as u64) as usize;
+            let (w, r) = (all[..cut].to_vec(), all[cut..].to_vec());
+            let tag = self.next_tag;
+            self.next_tag += 1;
+            v.push(Op::Sys { tag, name: format!("init{}", tag), deps: vec![], r, w, t: 3 });
+            v.push(Op::Barrier);
+        }
         for k in 0..n {
             let c = self.rng.below(100);
             if c < self.cfg.p_barrier {
